@@ -7,6 +7,7 @@ cd $W || exit 2
 D=demo_${P}_$V
 run_demo() { if ls $D/*_test.go >/dev/null 2>&1; then go test -count=1 ./$D/ 2>&1 | tail -3; else go run ./$D 2>&1 | tail -3; echo "exit=$?"; fi; }
 git checkout -q -- . 
+git checkout -q --detach $(git -C /repo rev-parse HEAD)   # the worktree may predate a later fix: commit in /repo
 echo "== $P-$V without patch"; run_demo
 git apply /tmp/seed-$P.$V.patch || { echo "PATCH DOES NOT APPLY"; exit 3; }
 echo "== $P-$V with patch"; run_demo
